@@ -3,6 +3,7 @@ module github.com/foxcpp/maddy/verifharness
 go 1.26.8
 
 require (
+	github.com/emersion/go-imap v1.2.2-0.20220928192137-6fac715be9cf
 	github.com/emersion/go-message v0.18.2
 	github.com/emersion/go-milter v0.4.1
 	github.com/emersion/go-msgauth v0.6.8
@@ -12,6 +13,7 @@ require (
 	github.com/foxcpp/go-mtasts v0.0.0-20240130093538-1438da2e5932
 	github.com/foxcpp/maddy v0.0.0
 	github.com/miekg/dns v1.1.63
+	github.com/urfave/cli/v2 v2.27.5
 	golang.org/x/crypto v0.32.0
 	golang.org/x/net v0.34.0
 	golang.org/x/text v0.21.0
@@ -19,23 +21,91 @@ require (
 
 require (
 	blitiri.com.ar/go/spf v1.5.1 // indirect
+	filippo.io/edwards25519 v1.1.0 // indirect
+	github.com/Azure/go-ntlmssp v0.0.0-20221128193559-754e69321358 // indirect
+	github.com/G-Core/gcore-dns-sdk-go v0.2.9 // indirect
+	github.com/GehirnInc/crypt v0.0.0-20230320061759-8cc1b52080c5 // indirect
 	github.com/beorn7/perks v1.0.1 // indirect
 	github.com/c0va23/go-proxyprotocol v0.9.1 // indirect
+	github.com/caddyserver/certmagic v0.21.7 // indirect
+	github.com/caddyserver/zerossl v0.1.3 // indirect
 	github.com/cespare/xxhash/v2 v2.3.0 // indirect
-	github.com/emersion/go-imap v1.2.2-0.20220928192137-6fac715be9cf // indirect
+	github.com/cpuguy83/go-md2man/v2 v2.0.6 // indirect
+	github.com/digitalocean/godo v1.134.0 // indirect
+	github.com/dustin/go-humanize v1.0.1 // indirect
+	github.com/emersion/go-imap-compress v0.0.0-20201103190257-14809af1d1b9 // indirect
+	github.com/emersion/go-imap-sortthread v1.2.0 // indirect
+	github.com/fatih/color v1.18.0 // indirect
+	github.com/foxcpp/go-dovecot-sasl v0.0.0-20200522223722-c4699d7a24bf // indirect
+	github.com/foxcpp/go-imap-i18nlevel v0.0.0-20200208001533-d6ec88553005 // indirect
+	github.com/foxcpp/go-imap-mess v0.0.0-20230108134257-b7ec3a649613 // indirect
+	github.com/foxcpp/go-imap-namespace v0.0.0-20200802091432-08496dd8e0ed // indirect
+	github.com/foxcpp/go-imap-sql v0.5.1-0.20250124140007-8da5567429d5 // indirect
+	github.com/fsnotify/fsnotify v1.8.0 // indirect
+	github.com/go-asn1-ber/asn1-ber v1.5.7 // indirect
+	github.com/go-ini/ini v1.67.0 // indirect
+	github.com/go-ldap/ldap/v3 v3.4.10 // indirect
+	github.com/go-sql-driver/mysql v1.8.1 // indirect
+	github.com/goccy/go-json v0.10.4 // indirect
+	github.com/google/go-querystring v1.1.0 // indirect
 	github.com/google/uuid v1.6.0 // indirect
+	github.com/hashicorp/go-cleanhttp v0.5.2 // indirect
+	github.com/hashicorp/go-hclog v1.6.3 // indirect
+	github.com/hashicorp/go-retryablehttp v0.7.7 // indirect
+	github.com/hashicorp/hcl v1.0.0 // indirect
+	github.com/josharian/intern v1.0.0 // indirect
+	github.com/klauspost/compress v1.17.11 // indirect
+	github.com/klauspost/cpuid/v2 v2.2.9 // indirect
 	github.com/lib/pq v1.10.9 // indirect
+	github.com/libdns/cloudflare v0.1.1 // indirect
+	github.com/libdns/digitalocean v0.0.0-20230728223659-4f9064657aea // indirect
+	github.com/libdns/gandi v1.0.3 // indirect
+	github.com/libdns/gcore v0.0.0-20250127070537-4a9d185c9d20 // indirect
+	github.com/libdns/hetzner v0.0.1 // indirect
+	github.com/libdns/libdns v0.2.2 // indirect
+	github.com/libdns/namecheap v0.0.0-20211109042440-fc7440785c8e // indirect
+	github.com/libdns/vultr v1.0.0 // indirect
+	github.com/magiconair/properties v1.8.9 // indirect
+	github.com/mailru/easyjson v0.9.0 // indirect
+	github.com/mattn/go-colorable v0.1.14 // indirect
+	github.com/mattn/go-isatty v0.0.20 // indirect
 	github.com/mattn/go-sqlite3 v1.14.24 // indirect
+	github.com/mholt/acmez/v3 v3.0.1 // indirect
+	github.com/minio/md5-simd v1.1.2 // indirect
+	github.com/minio/minio-go/v7 v7.0.84 // indirect
+	github.com/mitchellh/mapstructure v1.5.0 // indirect
 	github.com/munnerz/goautoneg v0.0.0-20191010083416-a7dc8b61c822 // indirect
+	github.com/netauth/netauth v0.6.2 // indirect
+	github.com/netauth/protocol v0.0.0-20210918062754-7fee492ffcbd // indirect
+	github.com/pelletier/go-toml/v2 v2.2.3 // indirect
+	github.com/pierrec/lz4 v2.6.1+incompatible // indirect
 	github.com/prometheus/client_golang v1.20.5 // indirect
 	github.com/prometheus/client_model v0.6.1 // indirect
 	github.com/prometheus/common v0.62.0 // indirect
 	github.com/prometheus/procfs v0.15.1 // indirect
+	github.com/rs/xid v1.6.0 // indirect
+	github.com/russross/blackfriday/v2 v2.1.0 // indirect
+	github.com/sagikazarmark/slog-shim v0.1.0 // indirect
+	github.com/spf13/afero v1.12.0 // indirect
+	github.com/spf13/cast v1.7.1 // indirect
+	github.com/spf13/pflag v1.0.5 // indirect
+	github.com/spf13/viper v1.19.0 // indirect
+	github.com/subosito/gotenv v1.6.0 // indirect
+	github.com/vultr/govultr/v3 v3.14.1 // indirect
+	github.com/xrash/smetrics v0.0.0-20240521201337-686a1a2994c1 // indirect
+	github.com/zeebo/blake3 v0.2.4 // indirect
 	go.uber.org/multierr v1.11.0 // indirect
 	go.uber.org/zap v1.27.0 // indirect
+	go.uber.org/zap/exp v0.3.0 // indirect
+	golang.org/x/oauth2 v0.25.0 // indirect
 	golang.org/x/sync v0.10.0 // indirect
 	golang.org/x/sys v0.29.0 // indirect
+	golang.org/x/time v0.9.0 // indirect
+	google.golang.org/genproto/googleapis/rpc v0.0.0-20250124145028-65684f501c47 // indirect
+	google.golang.org/grpc v1.70.0 // indirect
 	google.golang.org/protobuf v1.36.4 // indirect
+	gopkg.in/ini.v1 v1.67.0 // indirect
+	gopkg.in/yaml.v3 v3.0.1 // indirect
 )
 
 replace github.com/foxcpp/maddy => /repo
